@@ -212,7 +212,7 @@ func scopeRule(id string, props []string, floor int, want func(fk string) bool, 
 }
 
 func init() {
-	scopeRule("C07.scope", []string{"C07"}, 1, func(fk string) bool { return strings.Contains(fk, "slash") || !strings.Contains(fk, "GetUnbondings") },
+	scopeRule("C07.scope", []string{"C07", "C02"}, 1, func(fk string) bool { return strings.Contains(fk, "slash") || !strings.Contains(fk, "GetUnbondings") },
 		"slashing loops over index-reached unbonding entries filter by the index key's validator and denom")
 	scopeRule("C20.scope", []string{"C20"}, 2, func(fk string) bool { return strings.Contains(fk, "GetUnbondings") },
 		"query loops over index-reached unbonding entries filter by the index key's validator and denom")
